@@ -116,6 +116,18 @@ class TypedGen(gen.Gen):
         fields.append(('w', 'b'))
     return fields
 
+  P_CALL_INLINE = 0.5
+
+  def Body(self, env):
+    """Calls of injectible predicates are rare in gen.py's bodies; C05 needs
+    injection exercised (the types of the caller flow through the call)."""
+    body = super().Body(env)
+    inl = [s for s in self.sigs if s.inline]
+    if inl and env and self.rng.random() < self.P_CALL_INLINE:
+      body.append(self.AtomOver(self.rng.choice(inl), env))
+      self.rng.shuffle(body)
+    return body
+
   def Inline(self):
     """An injectible predicate must constrain each of its parameters (else
     the parameter's type is not determined by the program)."""
